@@ -28,6 +28,21 @@ claim("C01", "DESIGN.md §4 C01, §2.2, §3.1-3.3",
       "Decides structural necessary conditions only: (G1) the compiled python.rs equals the regenerated parser for the checked-in grammar, so every grammar-level rule speaks about the compiled parser; (T1-T4) keyword, operator, operator-tag and start-marker tables equal the Python 3.11 reference tables; (X1) load/store/del discipline: every ctx literal is Load except the two binding targets, all 8 target positions go through set_context, set_context covers every ctx-carrying Expr variant; (O1) in every AST literal of every action the fields take their values from bindings in reference source order (catches swapped operands/branches in any un-snapshotted production); (D1/D2) trailing-comma singleton and paren-sensitive flag deviants; (S1/S2) the soft-keyword pass is a same-range relabelling whose look-ahead flags are top-level-only; (I1, X2) import dots and argument partition order. It does not decide that the grammar accepts exactly Python or that node kinds are the reference's for every program.",
       "Static rule discharge over parser/src/python.lalrpop, python.rs, build.rs, token.rs, soft_keywords.rs, context.rs, function.rs, parser.rs, ast/src/gen/generic.rs; oracle tables refdata/py311_tokens.json, py311_ops.json, asdl_source_order.json; the lalrpop 0.20.2 generator is trusted as the regeneration oracle." + COMMON_NOTE)
 
+claim("C02", "DESIGN.md §4 C02",
+      "static analysis: range-capture discipline read off the LALRPOP grammar (capture positions vs symbols, end-of-suite chains), who-may-advance rules for position bookkeeping in lexer.rs/string.rs, path enumeration of Lexer::next_char, abstract execution of the operator arms, Ranged-impl completeness, TextRange literal confinement, G1 translation validation",
+      "Decides the range-capture discipline, not equality with CPython's extents: (R1) every returned node's range starts at the @L before the alternative's first symbol and ends at the @R after its last one, or at the end of the trailing suites taken in reverse source order; (R2) no range derived from an expression child's start()/end(); (R3/R3b) per-element and secondary nodes are bracketed by their own captures; (R4) children lie between the parent's captures, lists only pass through order-preserving operations; (R5-R7b) string/f-string ranges: first-start..last-end, re-basing constant = prefix length, StringParser::next_char is the only consumer of the character stream; (N1) only Lexer::next_char advances the position, by exactly the bytes slid (CR LF = 2) and Lexer::new seeds it with the start offset and the BOM's own length; (L1/O1) every token range is get_pos() before the first and after the last consumed character; (R8/W1) Ranged impls complete, TextRange literals confined so start <= end. Six genuine deviants are recorded as known findings.",
+      "Static rule discharge over parser/src/python.lalrpop (= python.rs by G1), lexer.rs, string.rs, ast/src/gen/{generic,ranged}.rs, vendored/src/text_size/range.rs." + COMMON_NOTE)
+
+claim("C05", "DESIGN.md §4 C05, App. A.3/A.4",
+      "static analysis: abstract execution of every arm of Lexer::consume_character against the Python 3.11 operator trie; path enumeration of Lexer::next_char (byte accounting); emit/pairing/dominance rules for Indent/Dedent/Newline; who-may-write rules for location, window and pending queue; skip-set classification of consuming paths; feature-twin skeleton comparison",
+      "Decides emit discipline and table agreement: (O1) all 47 operator tokens: start taken before the first and end after the last consumed character, spelling = reference spelling, implemented trie = reference trie (longest match); (N1) byte accounting of next_char on all 4 path classes and single-writer of location/window; (L1) lex_identifier/number/string ranges and name text; (I1/I2) push<->Indent, pop<->Dedent pairing, EOF flush, Newline only under nesting == 0; (S1) the only consumption without a token is layout/comments/backslash-newline; (Q1) FIFO queue; (W1) indentation counters reset by every non-indentation arm; (T1/T2) keyword/operator tables; (F1) full-lexer statements are position reads/trivia emits and the feature twins consume identically. Not decided: numeric token values (C06), Unicode identifier classification (dependency tables).",
+      "Static rule discharge over parser/src/lexer.rs, token.rs, build.rs, python.lalrpop extern block; oracle refdata/py311_tokens.json." + COMMON_NOTE)
+
+claim("C10", "DESIGN.md §4 C10",
+      "static analysis: cfg-site inventory and confinement over all configurations at once (syn sees every cfg branch), feature-twin skeleton comparison, filter dominance in front of TopParser, three-way token-kind set agreement, alias/flow rules for OptionalRange and the bigint backends, G1; thorough tier adds the type-checked feature matrix (cargo check, nothing run)",
+      "Decides that the features are confined so they cannot change what is parsed: (I1) full-lexer / all-nodes-with-ranges / backend cfg sites occur only in their classified files (none in parser/src for ranges); (F1) full-lexer-gated lexer statements only read positions or emit the two trivia kinds and the lex_comment twins consume the same characters; (F2) the trivia filter sits in parse_filtered_tokens before the only TopParser invocation; (F3) gated kinds = filtered kinds = kinds the soft-keyword pass ignores; (R1) OptionalRange is R or EmptyRange<R>, optional_range flows only into range fields; (B1) backends only through the alias; (U1) feature-dependent todo!() (from_arg) unreachable from the parser; (G1) python.rs = regenerated grammar in every configuration. Thorough: (M1) all 7 supported configurations type-check.",
+      "Static rule discharge over all non-test sources of the six crates." + COMMON_NOTE)
+
 def main():
     props = [json.loads(l) for l in open(os.path.join(HERE, "properties.jsonl"))]
     checks, na = [], []
